@@ -1,6 +1,7 @@
 //! Checks that need the feature-guarded hooks of scnr (feature `verif`).
 mod c02c03;
 mod c13;
+mod c17;
 mod c18;
 mod e1;
 mod e3;
@@ -16,6 +17,7 @@ fn main() {
         "C03" => c02c03::run("C03", tier),
         "C06" => hist::run("C06", tier),
         "C13" => c13::run(tier),
+        "C17" => c17::run(tier),
         "C18" => c18::run(tier),
         "C09" => hist::run("C09", tier),
         "C10" => hist::run("C10", tier),
